@@ -59,6 +59,9 @@ package clip
 //@ func line(box, in, open)
 //@   modifies nothing
 //@   ensures result == nil || fresh(result)
+//@   ensures forall k :: 0 <= k && k < len(result) ==> len(result[k]) >= 1
+//@   loop 1: invariant forall k :: 0 <= k && k < len(out) ==> len(out[k]) >= 1
+//@   loop 2: invariant forall k :: 0 <= k && k < len(out) ==> len(out[k]) >= 1
 // the end of the line is not lost: when the last vertex has region code 0 (closed or open code, as the
 // mode says) it is the last vertex of the last piece
 //@   ensures len(in) >= 2 && ite(open, bitCodeOpen(box, in[len(in)-1]), bitCode(box, in[len(in)-1])) == 0 ==> len(result) >= 1 && len(result[len(result)-1]) >= 1 && same(result[len(result)-1][len(result[len(result)-1])-1], in[len(in)-1])
@@ -92,6 +95,7 @@ package clip
 //@ func LineString(b, ls, opts)
 //@   requires forall k :: 0 <= k && k < len(opts) ==> opts[k] != nil
 //@   ensures result == nil <==> len(result) == 0
+//@   ensures forall k :: 0 <= k && k < len(result) ==> len(result[k]) >= 1
 //@   opt funcsPreserve=S:orb.Point,S:orb.LineString,S:clip.Option
 //@   loop 1: invariant forall k :: 0 <= k && k < len(opts) ==> opts[k] != nil
 //@ func MultiLineString(b, mls, opts)
